@@ -26,6 +26,19 @@ CHECKS = {
              'larger ranges and many seeds must be a behaviour of the specification with the same invariants.',
         note='Which permutation is drawn is left to NumPy; re-shuffling asserted only for N>=8 over >=3 windows.',
         design='5/C04'),
+    'C05': dict(
+        technique='TLA+ spec EvalFold.tla (evaluation as a fold over layouts: order, cuts, masked padding rows anywhere) '
+                  'model-checked by TLC on an abstract bank of statistics and on the bank of every discrete built-in '
+                  'metric (single-example statistics computed by TLC from MetricDefs.tla); layouts replayed into '
+                  'evaluate_model / evaluate_batch / ModelEvaluator; real Stat monoid laws and cross-entropy metrics as '
+                  'PureHistory facts judged by TLC',
+        text='TLC proves that every layout folds to the one-by-one merge, the monoid laws and zero-for-empty, with the '
+             'mask-after-reduce, unsanitised-merge and skip-leading-padding deviations reported; sampled (quick) / all '
+             'bounded (thorough) layouts are executed for every discrete metric class through four entry points with '
+             'valid or NaN garbage in padded rows and compared with the TLC rational; all merge groupings of real '
+             'statistics (with and without zero) must agree with evaluate_model.',
+        note='Cross-entropy metrics only relationally (tolerance classes); banks of <= 4 examples, <= 3 batches of <= 3 rows.',
+        design='5/C05'),
     'C07': dict(
         technique='TLA+ specs Aggregation.tla (one-pass fold, donated accumulator, buffer table) and Clip.tla (exact '
                   'rational clipping) model-checked by TLC; emitted cases replayed into tree_sum/tree_mean/'
